@@ -1195,3 +1195,153 @@ Proof.
   exists 5, 5, (fun _ => false), redirect_witness_graph, 8, (MkMod false None [From 0 4 2; From 6 2 2]), 2.
   vm_compute. repeat split; discriminate.
 Qed.
+
+(* ---- non-vacuity: a package graph with a re-export chain of depth 3, __all__, an alias, a private
+   name and two star imports, on which both rules fire and all guards hold.
+   0 = ma: x(2) y(4) _u(5);  10 = mb: from ma import *, __all__ = [2];  20 = mc: from mb import x as z(6),
+   w(8) = ..;  30 = md: from mc import z, from ma import *;  40 = client *)
+Definition ex_graph : graph :=
+  [(0, MkMod false None [Assign 2; Def 4; Assign 5]);
+   (10, MkMod false (Some [2]) [Star 0]);
+   (20, MkMod false None [From 10 2 6; Assign 8]);
+   (30, MkMod false None [From 20 6 6; Star 0]);
+   (40, MkMod false None [Star 30; Star 20; From 30 6 12])].
+Definition ex_client : modinfo := MkMod false None [Star 30; Star 20; From 30 6 12].
+Definition ex_used : list name := [2; 4; 6; 8; 12].
+
+Example star_example :
+  topo_ok ex_graph = true /\ loads 10 ex_graph = true /\
+  find_mod ex_graph 40 = Some ex_client /\ client_leaf ex_graph 40 = true /\
+  stars_agree 10 10 ex_graph (body ex_client) ex_used = true /\
+  forallb (fun n => negb (res_eqb (resolve 11 ex_graph 40 n) Timeout)) ex_used = true /\
+  fix_starred 10 ex_graph (body ex_client) ex_used =
+    [From 30 2 2; From 30 4 4; From 20 6 6; From 20 8 8; From 30 6 12].
+Proof. vm_compute. repeat split; reflexivity. Qed.
+
+Definition ex_client2 : modinfo := MkMod false None [From 30 2 2; From 30 4 4; From 20 6 6; From 20 8 8; From 30 6 12].
+Definition ex_graph2 : graph := update_mod ex_graph 40 ex_client2.
+Example redirect_example :
+  find_mod ex_graph2 40 = Some ex_client2 /\ client_leaf ex_graph2 40 = true /\
+  has_star (body ex_client2) = false /\
+  forallb (fun n => count_binders n (body ex_client2) <=? 1) ex_used = true /\
+  redirect_agrees 10 10 (fun _ => false) ex_graph2 (body ex_client2) = true /\
+  forallb (fun n => negb (res_eqb (resolve 12 ex_graph2 40 n) Timeout)) ex_used = true /\
+  fix_reimported 10 (fun _ => false) ex_graph2 (body ex_client2) =
+    [From 0 2 2; From 0 4 4; From 10 2 6; From 20 6 12; From 20 8 8].
+Proof. vm_compute. repeat split; reflexivity. Qed.
+
+(* ---- acyclic graphs: with fuel > number of modules, resolution never runs out of fuel *)
+Lemma scan_no_timeout : forall (rec : modname -> name -> res) g m n bs,
+  (forall b s, In b bs -> import_source b = Some s -> forall x, rec s x <> Timeout) ->
+  scan rec g m n bs <> Timeout.
+Proof.
+  intros rec g m n. induction bs as [|b bs IH]; intros H; cbn [scan]; [discriminate|].
+  assert (IH' : scan rec g m n bs <> Timeout).
+  { apply IH. intros b0 s Hin Hs. apply (H b0 s); [right; exact Hin|exact Hs]. }
+  destruct b as [x|x|m' x a|m'|m' a d].
+  - destruct (x =? n); [discriminate|exact IH'].
+  - destruct (x =? n); [discriminate|exact IH'].
+  - destruct (a =? n); [|exact IH']. apply (H (From m' x a) m' (or_introl eq_refl) eq_refl).
+  - destruct (find_mod g m'); [|exact IH']. destruct (exported m0 n); [|exact IH'].
+    pose proof (H (Star m') m' (or_introl eq_refl) eq_refl n) as Hr.
+    destruct (rec m' n); [discriminate|exact IH'|exfalso; apply Hr; reflexivity].
+  - destruct (a =? n); [discriminate|exact IH'].
+Qed.
+
+Lemma topo_from_find : forall g seen, topo_from seen g = true ->
+  forall k mi, In (k, mi) g -> find_mod g k = Some mi /\ mem k seen = false.
+Proof.
+  induction g as [|[k0 mi0] g IH]; intros seen Ht k mi Hin; [destruct Hin|].
+  cbn [topo_from] in Ht. apply andb_true_iff in Ht. destruct Ht as [Ht Htl].
+  apply andb_true_iff in Ht. destruct Ht as [Hk0 _]. apply negb_true_iff in Hk0.
+  destruct Hin as [Heq|Hin].
+  - inversion Heq. subst. cbn [find_mod]. rewrite Nat.eqb_refl. auto.
+  - destruct (IH (k0 :: seen) Htl k mi Hin) as [Hf Hm].
+    unfold mem in Hm. cbn [existsb] in Hm. apply orb_false_iff in Hm. destruct Hm as [Hne Hm].
+    cbn [find_mod]. rewrite Nat.eqb_sym, Hne. auto.
+Qed.
+
+Lemma topo_no_timeout_aux : forall g0 suffix seen f,
+  (forall k mi, In (k, mi) suffix -> find_mod g0 k = Some mi) ->
+  topo_from seen suffix = true ->
+  (forall m, mem m seen = true -> forall n, resolve f g0 m n <> Timeout) ->
+  forall m, (mem m seen = true \/ In m (map fst suffix)) -> forall n, resolve (length suffix + f) g0 m n <> Timeout.
+Proof.
+  intros g0. induction suffix as [|[k mi] suffix IH]; intros seen f Hfind Ht Hseen m Hm n.
+  - cbn [length plus]. destruct Hm as [Hm|[]]. apply Hseen. exact Hm.
+  - cbn [topo_from] in Ht. apply andb_true_iff in Ht. destruct Ht as [Ht Htl].
+    apply andb_true_iff in Ht. destruct Ht as [_ Hsrc]. rewrite forallb_forall in Hsrc.
+    assert (Hk : forall n0, resolve (S f) g0 k n0 <> Timeout).
+    { intros n0. cbn [resolve]. rewrite (Hfind k mi (or_introl eq_refl)).
+      apply scan_no_timeout. intros b s Hb Hs x. apply in_rev in Hb. specialize (Hsrc b Hb).
+      rewrite Hs in Hsrc. apply Hseen. exact Hsrc. }
+    assert (Hseen' : forall m0, mem m0 (k :: seen) = true -> forall n0, resolve (S f) g0 m0 n0 <> Timeout).
+    { intros m0 Hm0 n0. unfold mem in Hm0. cbn [existsb] in Hm0. apply orb_true_iff in Hm0.
+      destruct Hm0 as [Hm0|Hm0].
+      - apply Nat.eqb_eq in Hm0. subst. apply Hk.
+      - rewrite resolve_mono; apply Hseen; exact Hm0. }
+    replace (length ((k, mi) :: suffix) + f) with (length suffix + S f) by (cbn [length]; lia).
+    apply (IH (k :: seen) (S f)); [| exact Htl | exact Hseen' |].
+    + intros k0 mi0 Hin. apply Hfind. right. exact Hin.
+    + destruct Hm as [Hm|Hm].
+      * left. unfold mem. cbn [existsb]. fold (mem m seen). rewrite Hm. apply orb_true_r.
+      * cbn [map fst In] in Hm. destruct Hm as [Hm|Hm]; [|right; exact Hm].
+        subst. left. unfold mem. cbn [existsb]. rewrite Nat.eqb_refl. reflexivity.
+Qed.
+
+Lemma find_mod_None_notin : forall g m, find_mod g m = None -> ~ In m (map fst g).
+Proof.
+  induction g as [|[k v] g IH]; intros m H Hin; [destruct Hin|].
+  cbn [find_mod] in H. destruct (k =? m) eqn:E; [discriminate|].
+  destruct Hin as [Heq|Hin]; [cbn [fst] in Heq; subst; rewrite Nat.eqb_refl in E; discriminate|].
+  exact (IH m H Hin).
+Qed.
+
+Theorem topo_no_timeout : forall g, topo_ok g = true ->
+  forall m n, resolve (S (length g)) g m n <> Timeout.
+Proof.
+  intros g Ht m n. destruct (find_mod g m) as [mi|] eqn:Ef.
+  - rewrite resolve_mono.
+    + replace (length g) with (length g + 0) by lia.
+      apply (topo_no_timeout_aux g g [] 0).
+      * intros k mi0 Hin. apply (topo_from_find g [] Ht k mi0 Hin).
+      * exact Ht.
+      * intros m0 Hm0. discriminate.
+      * right. apply in_map_iff. exists (m, mi). split; [reflexivity|apply find_mod_In; exact Ef].
+    + replace (length g) with (length g + 0) by lia.
+      apply (topo_no_timeout_aux g g [] 0).
+      * intros k mi0 Hin. apply (topo_from_find g [] Ht k mi0 Hin).
+      * exact Ht.
+      * intros m0 Hm0. discriminate.
+      * right. apply in_map_iff. exists (m, mi). split; [reflexivity|apply find_mod_In; exact Ef].
+  - cbn [resolve]. rewrite Ef. discriminate.
+Qed.
+
+(* T18.1 with the acyclicity guard instead of the fuel hypothesis *)
+Theorem star_expansion_acyclic : forall F g c mi used n,
+  topo_ok g = true ->
+  find_mod g c = Some mi ->
+  client_leaf g c = true ->
+  stars_agree (length g) F g (body mi) used = true ->
+  In n used ->
+  resolve (S (length g)) (update_mod g c (set_body mi (fix_starred F g (body mi) used))) c n =
+  resolve (S (length g)) g c n.
+Proof.
+  intros F g c mi used n Ht Hf Hl Hag Hn.
+  apply star_expansion_partial; try assumption. apply topo_no_timeout. exact Ht.
+Qed.
+
+Theorem redirect_acyclic : forall F std g c mi n,
+  topo_ok g = true ->
+  find_mod g c = Some mi ->
+  client_leaf g c = true ->
+  has_star (body mi) = false ->
+  count_binders n (body mi) <= 1 ->
+  redirect_agrees (length g) F std g (body mi) = true ->
+  resolve (S (S (length g))) (update_mod g c (set_body mi (fix_reimported F std g (body mi)))) c n =
+  resolve (S (S (length g))) g c n.
+Proof.
+  intros F std g c mi n Ht Hf Hl Hns Hc Hag.
+  apply redirect_partial; try assumption.
+  rewrite resolve_mono; apply topo_no_timeout; exact Ht.
+Qed.
